@@ -13,6 +13,20 @@ theorem advanceW_wrap0 {s : BB} {n : Int} (h1 : ¬ s.t < s.w + n) (h2 : s.w + n 
 
 macro "arith" : tactic => `(tactic| first | omega | (simp <;> omega))
 
+/-- advance in the contiguous layout: a (possibly stale) mark that the writer passes is reset -/
+theorem advanceW_flat {s : BB} {n : Int} (h2 : s.w + n ≠ s.c) :
+    advanceW s n = { s with w := s.w + n, t := if s.t < s.w + n then s.c else s.t } := by
+  unfold advanceW
+  by_cases h : s.t < s.w + n <;> simp [h, h2]
+
+theorem advanceW_flat0 {s : BB} {n : Int} (ht : s.t ≤ s.c) (h2 : s.w + n = s.c) :
+    advanceW s n = { s with w := 0, t := s.c } := by
+  unfold advanceW
+  by_cases h : s.t < s.c
+  · simp [h, h2]
+  · have : s.t = s.c := by omega
+    simp [h2, this]
+
 /-- the three layouts of the header comment -/
 theorem layout (s : BB) : (s.r ≤ s.w ∧ s.r ≠ 0) ∨ (s.r ≤ s.w ∧ s.r = 0) ∨ s.w < s.r := by omega
 
@@ -58,10 +72,9 @@ theorem write_spec {s : BB} (inv : Inv s) (src : List Byte) :
     ∃ s' b, write s src = .ok (s', b) ∧ Inv s' ∧ s'.c = s.c ∧
       (b = true ↔ (src.length : Int) ≤ writable s) ∧
       (b = true → abs s' = abs s ++ src) ∧ (b = false → s' = s) := by
-  obtain ⟨cpos, len, w0, r0, wc, flat, wrap⟩ := inv
+  obtain ⟨cpos, len, w0, r0, wc, t0, tc, wrap⟩ := inv
   rcases layout s with ⟨hl, hr⟩ | ⟨hl, hr⟩ | hl
   · -- w ≥ r, r ≠ 0
-    have ht := flat hl
     have hcw : contiguousWritable s = s.c - s.w := by simp [contiguousWritable, hl, hr]
     have hjw : jumpWritable s = s.r - 1 := by simp [jumpWritable, hl, hr]
     unfold write
@@ -71,7 +84,7 @@ theorem write_spec {s : BB} (inv : Inv s) (src : List Byte) :
       have hlen' := istore_length (b := s.buf) (src := src) w0 (by omega)
       simp only [bind, Except.bind, pure, Except.pure]
       by_cases h2 : s.w + src.length = s.c
-      · rw [advanceW_wrap0 (by arith) (by simpa using h2)]
+      · rw [advanceW_flat0 (by exact tc) (by simpa using h2)]
         refine ⟨_, _, rfl, ?_, rfl, ?_, ?_, ?_⟩
         · constructor <;> simp <;> omega
         · simp <;> omega
@@ -80,7 +93,7 @@ theorem write_spec {s : BB} (inv : Inv s) (src : List Byte) :
           simp only [Int.toNat_zero, slice_zero, List.append_nil]
           exact isl_store_extend r0 hl (by omega) (by omega)
         · simp
-      · rw [advanceW_plain (by arith) (by simpa using h2)]
+      · rw [advanceW_flat (by simpa using h2)]
         refine ⟨_, _, rfl, ?_, rfl, ?_, ?_, ?_⟩
         · constructor <;> simp <;> omega
         · simp <;> omega
@@ -91,7 +104,7 @@ theorem write_spec {s : BB} (inv : Inv s) (src : List Byte) :
     · rw [if_neg h1]
       by_cases h2 : s.c - s.w + (s.r - 1) < (src.length : Int)
       · rw [if_pos h2]
-        refine ⟨_, _, rfl, ⟨cpos, len, w0, r0, wc, flat, wrap⟩, rfl, ?_, ?_, ?_⟩
+        refine ⟨_, _, rfl, ⟨cpos, len, w0, r0, wc, t0, tc, wrap⟩, rfl, ?_, ?_, ?_⟩
         · simp <;> omega
         · simp
         · simp
@@ -134,7 +147,6 @@ theorem write_spec {s : BB} (inv : Inv s) (src : List Byte) :
             rw [List.append_assoc, List.take_append_drop]
           · simp
   · -- w ≥ r, r = 0
-    have ht := flat hl
     have hcw : contiguousWritable s = s.c - s.w - 1 := by simp [contiguousWritable, hr] <;> omega
     have hjw : jumpWritable s = 0 := by simp [jumpWritable, hr]
     unfold write
@@ -143,7 +155,7 @@ theorem write_spec {s : BB} (inv : Inv s) (src : List Byte) :
     · rw [if_pos h1, wr_ok w0 (by omega)]
       have hlen' := istore_length (b := s.buf) (src := src) w0 (by omega)
       simp only [bind, Except.bind, pure, Except.pure]
-      rw [advanceW_plain (by arith) (by arith)]
+      rw [advanceW_flat (by arith)]
       refine ⟨_, _, rfl, ?_, rfl, ?_, ?_, ?_⟩
       · constructor <;> simp <;> omega
       · simp <;> omega
@@ -152,7 +164,7 @@ theorem write_spec {s : BB} (inv : Inv s) (src : List Byte) :
         exact isl_store_extend r0 hl (by omega) (by arith)
       · simp
     · rw [if_neg h1, if_pos (by omega)]
-      refine ⟨_, _, rfl, ⟨cpos, len, w0, r0, wc, flat, wrap⟩, rfl, ?_, ?_, ?_⟩
+      refine ⟨_, _, rfl, ⟨cpos, len, w0, r0, wc, t0, tc, wrap⟩, rfl, ?_, ?_, ?_⟩
       · simp <;> omega
       · simp
       · simp
@@ -178,7 +190,7 @@ theorem write_spec {s : BB} (inv : Inv s) (src : List Byte) :
         rw [isl_store_extend0 w0 (by omega) rfl, List.append_assoc]
       · simp
     · rw [if_neg h1, if_pos (by omega)]
-      refine ⟨_, _, rfl, ⟨cpos, len, w0, r0, wc, flat, wrap⟩, rfl, ?_, ?_, ?_⟩
+      refine ⟨_, _, rfl, ⟨cpos, len, w0, r0, wc, t0, tc, wrap⟩, rfl, ?_, ?_, ?_⟩
       · simp <;> omega
       · simp
       · simp
@@ -220,7 +232,7 @@ theorem refresh_eq {s : BB} (h : s.w = s.r) : refresh s = clear s := by simp [re
 theorem refresh_ne {s : BB} (h : s.w ≠ s.r) : refresh s = s := by simp [refresh, h]
 
 theorem abs_length {s : BB} (inv : Inv s) : ((abs s).length : Int) = readable s := by
-  obtain ⟨cpos, len, w0, r0, wc, flat, wrap⟩ := inv
+  obtain ⟨cpos, len, w0, r0, wc, t0, tc, wrap⟩ := inv
   by_cases hl : s.r ≤ s.w
   · rw [abs_flat hl, isl_length r0 (by omega) (by omega)]
     simp [readable, contiguousReadable, jumpReadable, hl]
@@ -250,10 +262,9 @@ theorem read_spec {s : BB} (inv : Inv s) {n : Int} (hn : 0 ≤ n) :
       (n ≤ (abs s).length → o = some ((abs s).take n.toNat) ∧ abs s' = (abs s).drop n.toNat) ∧
       ((abs s).length < n → o = none ∧ s' = s) := by
   have hlen := abs_length inv
-  obtain ⟨cpos, len, w0, r0, wc, flat, wrap⟩ := inv
+  obtain ⟨cpos, len, w0, r0, wc, t0, tc, wrap⟩ := inv
   by_cases hl : s.r ≤ s.w
   · -- not wrapped
-    have ht := flat hl
     have hcr : contiguousReadable s = s.w - s.r := by simp [contiguousReadable, hl]
     have hjr : jumpReadable s = 0 := by simp [jumpReadable, hl]
     simp only [readable, hcr, hjr] at hlen
@@ -280,7 +291,7 @@ theorem read_spec {s : BB} (inv : Inv s) {n : Int} (hn : 0 ≤ n) :
           congr 2; omega
         · intro h; omega
     · rw [if_neg h1, if_pos (by omega)]
-      refine ⟨_, _, rfl, ⟨cpos, len, w0, r0, wc, flat, wrap⟩, rfl, ?_, ?_⟩
+      refine ⟨_, _, rfl, ⟨cpos, len, w0, r0, wc, t0, tc, wrap⟩, rfl, ?_, ?_⟩
       · intro h; omega
       · intro _; simp
   · -- wrapped
@@ -326,7 +337,7 @@ theorem read_spec {s : BB} (inv : Inv s) {n : Int} (hn : 0 ≤ n) :
     · rw [if_neg h1]
       by_cases h2 : s.t - s.r + s.w < n
       · rw [if_pos h2]
-        refine ⟨_, _, rfl, ⟨cpos, len, w0, r0, wc, flat, wrap⟩, rfl, ?_, ?_⟩
+        refine ⟨_, _, rfl, ⟨cpos, len, w0, r0, wc, t0, tc, wrap⟩, rfl, ?_, ?_⟩
         · intro h; omega
         · intro _; simp
       · rw [if_neg h2, copySplit_ok r0 (by omega) (by omega) (by omega) (by omega)]
@@ -336,16 +347,16 @@ theorem read_spec {s : BB} (inv : Inv s) {n : Int} (hn : 0 ≤ n) :
           refine ⟨_, _, rfl, ?_, rfl, ?_, ?_⟩
           · constructor <;> simp [clear] <;> omega
           · intro _
-            rw [abs_wrap hl', take_wrap_gt r0 ht.1 (by omega) (by omega) rfl (by omega),
-              drop_wrap_gt r0 ht.1 (by omega) (by omega) rfl rfl, isl_nil (o := n - (s.t - s.r)) (by omega)]
+            rw [abs_wrap hl', take_wrap_gt r0 ht (by omega) (by omega) rfl (by omega),
+              drop_wrap_gt r0 ht (by omega) (by omega) rfl rfl, isl_nil (o := n - (s.t - s.r)) (by omega)]
             simp [abs, clear, slice]
           · intro h; omega
         · rw [refresh_ne (by arith)]
           refine ⟨_, _, rfl, ?_, rfl, ?_, ?_⟩
           · constructor <;> simp <;> omega
           · intro _
-            rw [abs_wrap hl', take_wrap_gt r0 ht.1 (by omega) (by omega) rfl (by omega),
-              drop_wrap_gt r0 ht.1 (by omega) (by omega) rfl rfl, abs_flat (by arith)]
+            rw [abs_wrap hl', take_wrap_gt r0 ht (by omega) (by omega) rfl (by omega),
+              drop_wrap_gt r0 ht (by omega) (by omega) rfl rfl, abs_flat (by arith)]
             exact ⟨rfl, rfl⟩
           · intro h; omega
 
@@ -354,10 +365,9 @@ theorem fetch_spec {s : BB} (inv : Inv s) {n : Int} (hn : 0 ≤ n) :
       (n ≤ (abs s).length → o = some ((abs s).take n.toNat)) ∧
       ((abs s).length < n → o = none) := by
   have hlen := abs_length inv
-  obtain ⟨cpos, len, w0, r0, wc, flat, wrap⟩ := inv
+  obtain ⟨cpos, len, w0, r0, wc, t0, tc, wrap⟩ := inv
   by_cases hl : s.r ≤ s.w
-  · have ht := flat hl
-    have hcr : contiguousReadable s = s.w - s.r := by simp [contiguousReadable, hl]
+  · have hcr : contiguousReadable s = s.w - s.r := by simp [contiguousReadable, hl]
     have hjr : jumpReadable s = 0 := by simp [jumpReadable, hl]
     simp only [readable, hcr, hjr] at hlen
     unfold fetch
@@ -396,11 +406,11 @@ theorem fetch_spec {s : BB} (inv : Inv s) {n : Int} (hn : 0 ≤ n) :
         simp only [bind, Except.bind, pure, Except.pure]
         refine ⟨_, rfl, ?_, ?_⟩
         · intro _
-          rw [abs_wrap hl', take_wrap_gt r0 ht.1 (by omega) (by omega) rfl (by omega)]
+          rw [abs_wrap hl', take_wrap_gt r0 ht (by omega) (by omega) rfl (by omega)]
         · intro h; omega
 
 theorem clear_spec {s : BB} (inv : Inv s) : Inv (clear s) ∧ abs (clear s) = [] ∧ (clear s).c = s.c := by
-  obtain ⟨cpos, len, w0, r0, wc, flat, wrap⟩ := inv
+  obtain ⟨cpos, len, w0, r0, wc, t0, tc, wrap⟩ := inv
   refine ⟨?_, ?_, rfl⟩
   · constructor <;> simp [clear] <;> omega
   · simp [abs, clear, slice]
@@ -446,10 +456,9 @@ theorem wz_spec {s : BB} (inv : Inv s) (data : List Byte) {k : Int} (hk0 : 0 ≤
       (writerMoveN s1 off k).2 = true ∧ Inv (writerMoveN s1 off k).1 ∧
       (writerMoveN s1 off k).1.c = s.c ∧
       abs (writerMoveN s1 off k).1 = abs s ++ data.take k.toNat) := by
-  obtain ⟨cpos, len, w0, r0, wc, flat, wrap⟩ := inv
+  obtain ⟨cpos, len, w0, r0, wc, t0, tc, wrap⟩ := inv
   rcases layout s with ⟨hl, hr⟩ | ⟨hl, hr⟩ | hl
-  · have ht := flat hl
-    have hcw : contiguousWritable s = s.c - s.w := by simp [contiguousWritable, hl, hr]
+  · have hcw : contiguousWritable s = s.c - s.w := by simp [contiguousWritable, hl, hr]
     have hjw : jumpWritable s = s.r - 1 := by simp [jumpWritable, hl, hr]
     unfold writerFc
     simp only [hcw, hjw]
@@ -461,13 +470,13 @@ theorem wz_spec {s : BB} (inv : Inv s) (data : List Byte) {k : Int} (hk0 : 0 ≤
       unfold writerMoveN
       rw [if_neg (by omega)]
       by_cases h2 : s.w + k = s.c
-      · rw [advanceW_wrap0 (by arith) (by arith)]
+      · rw [advanceW_flat0 (by exact tc) (by arith)]
         refine ⟨rfl, ?_, rfl, ?_⟩
         · constructor <;> simp <;> omega
         · rw [abs_wrap (by arith), abs_flat hl]
           simp only [Int.toNat_zero, slice_zero, List.append_nil]
           exact isl_store_extend_k r0 hl (by omega) hk0 hk (by omega)
-      · rw [advanceW_plain (by arith) (by arith)]
+      · rw [advanceW_flat (by arith)]
         refine ⟨rfl, ?_, rfl, ?_⟩
         · constructor <;> simp <;> omega
         · rw [abs_flat (by arith), abs_flat hl]
@@ -488,8 +497,7 @@ theorem wz_spec {s : BB} (inv : Inv s) (data : List Byte) {k : Int} (hk0 : 0 ≤
       · left
         rw [if_neg h3]
         exact ⟨rfl, by omega, by omega⟩
-  · have ht := flat hl
-    have hcw : contiguousWritable s = s.c - s.w - 1 := by simp [contiguousWritable, hr] <;> omega
+  · have hcw : contiguousWritable s = s.c - s.w - 1 := by simp [contiguousWritable, hr] <;> omega
     have hjw : jumpWritable s = 0 := by simp [jumpWritable, hr]
     unfold writerFc
     simp only [hcw, hjw]
@@ -506,7 +514,7 @@ theorem wz_spec {s : BB} (inv : Inv s) (data : List Byte) {k : Int} (hk0 : 0 ≤
         · rw [abs_flat (by arith), abs_flat hl]
           simp only
           rw [isl_store_extend_k r0 hl (by omega) hk0 hk (by omega)]
-      · rw [if_neg hw, advanceW_plain (by arith) (by arith)]
+      · rw [if_neg hw, advanceW_flat (by arith)]
         refine ⟨rfl, ?_, rfl, ?_⟩
         · constructor <;> simp <;> omega
         · rw [abs_flat (by arith), abs_flat hl]
@@ -554,10 +562,9 @@ theorem wd_spec {s : BB} (inv : Inv s) (data : List Byte) :
       (writerMove s1 data.length).2 = true ∧ Inv (writerMove s1 data.length).1 ∧
       (writerMove s1 data.length).1.c = s.c ∧
       abs (writerMove s1 data.length).1 = abs s ++ data) := by
-  obtain ⟨cpos, len, w0, r0, wc, flat, wrap⟩ := inv
+  obtain ⟨cpos, len, w0, r0, wc, t0, tc, wrap⟩ := inv
   rcases layout s with ⟨hl, hr⟩ | ⟨hl, hr⟩ | hl
-  · have ht := flat hl
-    have hcw : ∀ b, contiguousWritable { s with buf := b } = s.c - s.w := by
+  · have hcw : ∀ b, contiguousWritable { s with buf := b } = s.c - s.w := by
       intro b; simp [contiguousWritable, hl, hr]
     have hjw : ∀ b, jumpWritable { s with buf := b } = s.r - 1 := by
       intro b; simp [jumpWritable, hl, hr]
@@ -574,13 +581,13 @@ theorem wd_spec {s : BB} (inv : Inv s) (data : List Byte) :
       simp only [hcw, hjw]
       rw [if_pos h1]
       by_cases h2 : s.w + data.length = s.c
-      · rw [advanceW_wrap0 (by arith) (by arith)]
+      · rw [advanceW_flat0 (by exact tc) (by arith)]
         refine ⟨rfl, ?_, rfl, ?_⟩
         · constructor <;> simp <;> omega
         · rw [abs_wrap (by arith), abs_flat hl]
           simp only [Int.toNat_zero, slice_zero, List.append_nil]
           exact isl_store_extend r0 hl (by omega) (by omega)
-      · rw [advanceW_plain (by arith) (by arith)]
+      · rw [advanceW_flat (by arith)]
         refine ⟨rfl, ?_, rfl, ?_⟩
         · constructor <;> simp <;> omega
         · rw [abs_flat (by arith), abs_flat hl]
@@ -602,8 +609,7 @@ theorem wd_spec {s : BB} (inv : Inv s) (data : List Byte) :
       · left
         rw [if_neg h3]
         exact ⟨rfl, by omega, by omega⟩
-  · have ht := flat hl
-    have hcw : ∀ b, contiguousWritable { s with buf := b } = s.c - s.w - 1 := by
+  · have hcw : ∀ b, contiguousWritable { s with buf := b } = s.c - s.w - 1 := by
       intro b; simp [contiguousWritable, hr] <;> omega
     have hjw : ∀ b, jumpWritable { s with buf := b } = 0 := by
       intro b; simp [jumpWritable, hr]
@@ -618,7 +624,7 @@ theorem wd_spec {s : BB} (inv : Inv s) (data : List Byte) :
       refine ⟨_, _, rfl, wr_ok w0 (by omega), Or.inl h1, ?_⟩
       unfold writerMove
       simp only [hcw, hjw]
-      rw [if_pos h1, advanceW_plain (by arith) (by arith)]
+      rw [if_pos h1, advanceW_flat (by arith)]
       refine ⟨rfl, ?_, rfl, ?_⟩
       · constructor <;> simp <;> omega
       · rw [abs_flat (by arith), abs_flat hl]
@@ -662,10 +668,9 @@ theorem rz_spec {s : BB} (inv : Inv s) {n k : Int} (hn : 0 ≤ n) (hk0 : 0 ≤ k
       (readerMove s k).2 = true ∧ Inv (readerMove s k).1 ∧ (readerMove s k).1.c = s.c ∧
       abs (readerMove s k).1 = (abs s).drop k.toNat) := by
   have hlen := abs_length inv
-  obtain ⟨cpos, len, w0, r0, wc, flat, wrap⟩ := inv
+  obtain ⟨cpos, len, w0, r0, wc, t0, tc, wrap⟩ := inv
   by_cases hl : s.r ≤ s.w
-  · have ht := flat hl
-    have hcr : contiguousReadable s = s.w - s.r := by simp [contiguousReadable, hl]
+  · have hcr : contiguousReadable s = s.w - s.r := by simp [contiguousReadable, hl]
     have hjr : jumpReadable s = 0 := by simp [jumpReadable, hl]
     simp only [readable, hcr, hjr] at hlen
     unfold readerFc readerMove
@@ -712,5 +717,10 @@ theorem rz_spec {s : BB} (inv : Inv s) {n k : Int} (hn : 0 ≤ n) (hk0 : 0 ≤ k
     · left
       rw [if_neg h1]
       exact ⟨rfl, by omega⟩
+
+theorem refresh_with_t (s : BB) (x : Int) :
+    refresh { s with t := x } = { refresh s with t := if s.w = s.r then s.c else x } := by
+  unfold refresh
+  by_cases h : s.w = s.r <;> simp [h, clear]
 
 end MgProof.C07
